@@ -15,14 +15,16 @@ SPEC = {
         "incl. empty ones, every symlink target verbatim, every file's bytes; same inode when linking, fresh inode with the "
         "requested mode when copying), C34_faithful_file, C34_faithful_symlink_link, C34_faithful_partial (everything except the "
         "witnessed shape, or everything once topLevelSymlinkAware), C34_recursive_link_faithful, C34_source_unchanged "
-        "(unconditional, also for pre-existing destinations: no inode that existed is written), C34_modes. "
+        "(successful calls, also onto pre-existing destinations incl. hard links of source files: no inode that existed is "
+        "written -- depends on the extracted fact tempThenRename; C34_witness_in_place_write_destroys_source is the "
+        "counterfactual), C34_fallback_replaces (link onto an existing file with fallback: fresh inode, source's mode), C34_modes. "
         "Model: the walk callback described at the destination entry; that each callback touches only its own destination "
         "path and MkdirAll supplies parents is validated by correspondence (incl. pre-existing destinations and error cases), "
         "not proved. Not modelled: I/O errors, cross-device rename fallback, special files, destination reached through a "
         "symlink to a directory, directory permission bits, link counts / timestamps."),
     "technique": "Lean 4 theorems over an executable model of the copy on an abstract file system with inodes + facts from go/ast + differential correspondence on real trees (inode identity via stat)",
     "trusted": [
-        "go/ast extractor harness/extract/c34: Lstat vs Stat, dispatch order of the walk callback (dir -> MkdirAll, symlink -> copySymlink, else CopyOrLinkFile), destination expression, whether the non-directory case tests for a symlink, CopyOrLinkFile's link / fallback shape, copySymlink, WriteFile's default mode, arguments of RecursiveCopy / RecursiveLink",
+        "go/ast extractor harness/extract/c34. Facts the model is parameterised by (the theorems follow the code): WriteFile's default mode, temp-file-and-rename vs in-place write, whether the non-directory case tests `info.Mode()&os.ModeSymlink != 0` and returns copySymlink(from, to) (exact AST form), CopyOrLinkFile recreating symlinks when linking, fallback copy taking the source's mode. Facts that only pin syntax (tripwires in C34_facts_ok, no theorem takes them as hypothesis): Lstat vs Stat, dispatch order of the walk callback, destination expression, copySymlink shape, arguments of RecursiveCopy / RecursiveLink",
         "correspondence harness/cmd/c34 vs Driver/C34.lean: fs.RecursiveCopyOrLinkFile on trees under $VERIF_SCRATCH (840-case exhaustive family: 10 source shapes x 7 destination states x 3 modes x 4 link/fallback settings; seeded random trees with hard-linked pairs, empty directories, relative/absolute/dangling nested symlinks, permission bits, 0-500 byte contents, pre-existing destinations); destination dumped with contents, permission bits, symlink targets and inode identity (stat dev/ino, kept alive against reuse); source snapshot before/after",
         "direct oracle: structural comparison source vs destination on the real file system (fresh destination) + source snapshot equality (always)",
         "modelled, not verified: Model/Copy.lean; os.Link / os.Symlink / rename / MkdirAll semantics as stated there",
